@@ -248,6 +248,10 @@ class Walker:
                 for a, val in base[3]:
                     if a == node.attr:
                         return val
+            if base[0] == 'closure':
+                got = self.__dict__.get('_fnattrs', {}).get((base, node.attr))
+                if got is not None:
+                    return got
             return v
         if isinstance(node, ast.Call):
             args = []
@@ -531,7 +535,7 @@ class Walker:
                 # the views of a dict written out in place, in insertion order
                 pick = {'items': lambda k, v: ('tuple', (k, v)), 'keys': lambda k, v: k, 'values': lambda k, v: v}[lit[2]]
                 lit = ('list', tuple(pick(k, v) for k, v in lit[1][1]))
-            if lit[0] in ('list', 'tuple') and len(lit[1]) <= 64 and not any(e[0] == 'star' for e in lit[1]) and not isinstance(node, ast.SetComp):
+            if lit[0] in ('list', 'tuple') and len(lit[1]) <= 64 and not any(e[0] == 'star' for e in lit[1]):
                 # a comprehension over a literal sequence is the sequence it spells out (elements in order)
                 elems = []
                 ok = True
@@ -548,7 +552,14 @@ class Walker:
                         break
                     if all(conds):
                         elems.append(self.sym(node.elt, s2))
-                if ok:
+                if ok and isinstance(node, ast.SetComp):
+                    if all(is_const(e) for e in elems):
+                        uniq = []
+                        for e in elems:
+                            if e not in uniq:
+                                uniq.append(e)
+                        return ('set', tuple(uniq))
+                elif ok:
                     return ('list', tuple(elems))
             inner = st.clone()
             names = [n.id for n in ast.walk(g.target) if isinstance(n, ast.Name)]
@@ -830,8 +841,11 @@ class Walker:
             if not paths or len(paths) > 48:
                 return None
             vals = []
+            # rebinding a local of the evaluated frame (or of a helper inlined into it) is no effect anybody else can see
+            own_locals = {n.id for n in ast.walk(fn) if isinstance(n, ast.Name) and isinstance(n.ctx, ast.Store)} | {a.arg for a in fn.args.args}
+            outer = set(cenv) if cenv is not None else set(st.env)
             for p in paths:
-                if any(e[0] not in self.PURE_EVENTS for e in p.events):
+                if any(e[0] not in self.PURE_EVENTS and not (e[0] == 'aug' and (e[1] in own_locals or e[1] not in outer)) for e in p.events):
                     return None
                 if p in live:
                     vals.append((p, C(None)))
@@ -1569,7 +1583,13 @@ class Walker:
                     if val == base:
                         st.env[n_] = new
         elif isinstance(tgt, ast.Attribute):
-            st.events.append(('setattr', self.sym(tgt.value, st), tgt.attr, v, node))
+            base_ = self.sym(tgt.value, st)
+            if base_[0] == 'closure' and len(base_) > 3:
+                # an attribute set on a function object that was created in the frame being evaluated (a tag on a closure):
+                # remembered on the value, visible to nobody else
+                self.__dict__.setdefault('_fnattrs', {})[(base_, tgt.attr)] = v
+                return
+            st.events.append(('setattr', base_, tgt.attr, v, node))
         else:
             raise AnalysisError('pathwalk: assignment target {}'.format(unparse(tgt)))
 
